@@ -6,18 +6,31 @@ package xmp
 const zzHead = `<x:xmpmeta xmlns:x="adobe:ns:meta/"><rdf:RDF xmlns:rdf="http://www.w3.org/1999/02/22-rdf-syntax-ns#">`
 const zzTail = `</rdf:RDF></x:xmpmeta>`
 
-var zzValOK = func() (t [256]bool) {
-	for c := 0x21; c < 0x7f; c++ {
-		t[c] = c != '<' && c != '>' && c != '"' && c != '\'' && c != '&' && c != '='
+// zzValOK[q][c]: c may occur in a value delimited by quote q (q = 0: element content): printable ASCII without markup
+// characters and without the delimiting quote itself (the other quote character is legal inside the value).
+var zzValOK = func() (t [3][256]bool) {
+	for q := 0; q < 3; q++ {
+		for c := 0x21; c < 0x7f; c++ {
+			ok := c != '<' && c != '>' && c != '&' && c != '='
+			if q == 1 && c == '"' {
+				ok = false
+			}
+			if q == 2 && c == '\'' {
+				ok = false
+			}
+			t[q][c] = ok
+		}
 	}
 	return
 }()
 
-// zzVal: n arbitrary bytes of the character-data alphabet (printable ASCII without markup and quote characters).
+var zzQuoteClass = 0
+
+// zzVal: n arbitrary bytes of the character-data alphabet of the current serialisation (see zzValOK).
 func zzVal(name string, n int) []byte {
 	v := zzBytes(name, n)
 	for _, c := range v {
-		zzAssume(zzValOK[c])
+		zzAssume(zzValOK[zzQuoteClass][c])
 	}
 	return v
 }
@@ -118,6 +131,7 @@ func zzC13_attr_N() int { return 6 }
 func zzC13_attr() {
 	n := []int{1, 4, 9}[zzPart()/2]
 	q := []byte{'"', '\''}[zzPart()%2]
+	zzQuoteClass = 1 + zzPart()%2
 	p := zzSymProps(n)
 	junk := zzBytes("junk", 3)
 	for _, c := range junk {
@@ -139,6 +153,7 @@ func zzC13_elem() {
 
 // attribute form and element form of the same record give the same result
 func zzC13_same() {
+	zzQuoteClass = 1
 	p := zzSymProps(3)
 	a, ea := ParseXmp(zzReaderOf(zzAttrPacket(p, '"', nil)))
 	e, ee := ParseXmp(zzReaderOf(zzElemPacket(p, nil)))
